@@ -805,13 +805,24 @@ pub mod c20 {
         let mut tid = -1;
         for _ in 0..200 {
             let now = thread_ids();
-            if let Some(t) = now.iter().find(|t| !before.contains(t)) {
-                tid = *t;
+            // thread creation is serialised (SPAWN): exactly one new entry may appear; anything else is a listing
+            // that could not be read completely, and is retried
+            let fresh: Vec<i32> = now.iter().filter(|t| !before.contains(t)).cloned().collect();
+            if !before.is_empty() && fresh.len() == 1 {
+                tid = fresh[0];
                 break;
             }
             std::thread::sleep(Duration::from_millis(1));
         }
         drop(spawn_guard);
+        if tid < 0 && !handle.is_finished() {
+            // without the thread's id neither its system call nor its CPU time can be observed
+            out.inconclusive = Some("the receive thread could not be identified in /proc/self/task".into());
+            sync.store(false, Ordering::SeqCst);
+            unsafe { libc::shutdown(ss.as_raw_fd(), libc::SHUT_RDWR) };
+            let _ = pump.join();
+            return out;
+        }
         let in_select = |tid: i32| -> bool {
             let sc = blocked_syscall(tid);
             sc == SYS_SELECT || sc == SYS_PSELECT6
